@@ -101,4 +101,19 @@ PROPS = {
         "assumptions": ASSUME_COMMON,
         "technique": "runtime monitoring: shadow-allocator monitor (interval map + sentinels) over direct request/recycle histories, under ASan",
     },
+    "C10": {
+        "rule": ("each case: random domain, ordered pair (source, target) of forest kinds of the same shape drawn from MT bool/int/real, "
+                 "EV+ int, EV* real x fully/quasi/identity (incl. same kind+rule in two distinct forest objects), random policies; 2-6 "
+                 "random functions are copied source->target (compared at every point with the scalar conversion of the source value), "
+                 "copied again (must give the identical edge), copied inside the target forest (identity), and copied back "
+                 "(compared pointwise; must be the identical original edge when the model shows no loss and no real rounding is "
+                 "involved); EV+ +infinity into non-EV+ targets is not specified by the source and is skipped and counted; both "
+                 "forests audited (M1-M3).  non-trivial = some source function is non-constant; distinct = hash(pair, shape, tables)"),
+        "passes": {
+            "quick": [P("main", "asan", 2000)],
+            "thorough": [P("main", "asan", 50000)],
+        },
+        "require_counters": ["copies", "round_trips", "round_trips_lossless", "points_evaluated"],
+        "assumptions": ASSUME_COMMON,
+    },
 }
